@@ -131,7 +131,7 @@ def main():
             inconclusive.append(("_build", "harness crate failed to build"))
         else:
             log("built harness crate in %.1fs" % bdt)
-            results = core.run_jobs(ws, features, jobs, workers=args.workers)
+            results = core.run_jobs(ws, features, jobs, workers=args.workers or plan.get("workers"))
 
         replayed = 0
         for r in results:
